@@ -38,6 +38,7 @@ ASSUMPTIONS = [
     "harness/oscore_c11ref.py is a correct reading of RFC 8613 sections 3.2.1, 5.2, 5.3, 5.4 and 6.1 (Appendix C vectors C.1.1, C.3.1, C.4, C.7, C.8 pass each run)",
     "the outer option numbers the statement permits are OSCORE(9), Uri-Host(3), Uri-Port(7), Proxy-Uri(35), Proxy-Scheme(39), Observe(6); anything else in an outer message produced by protect() is flagged (RFC 8613 would also allow outer Max-Age/Block/Size/No-Response/Hop-Limit, but only when an intermediary or outer block-wise adds them, which protect() never does)",
     "a manipulated OSCORE option whose RFC 8613 section 6.1 reading gives the same Partial IV bytes, an (explicit or implied) kid equal to the receiver's Recipient ID and an (explicit or implied) kid context equal to the receiver's ID Context is semantically neutral: it may be rejected or yield the original message; a request without kid is NOT neutral (RFC 8613 section 8.2 step 3 needs the kid to find the context)",
+    "a request's Partial IV is compared byte-exact (it is the request_piv of the AAD); a response's own Partial IV only enters the nonce left-padded to 5 bytes, so a leading zero byte added to it is neutral (RFC 8613 sections 5.2, 5.4: the option value itself is not authenticated)",
     "sender ID != recipient ID within a context pair (RFC 8613 section 3.3 requires unique sender IDs)",
     "ReplayWindow is re-initialised empty before every unprotect attempt so that replay rejection never masks a verdict",
 ]
@@ -217,8 +218,15 @@ def judge(ref, recv_recipient_id, recv_id_context, is_request, orig, orig_ct, op
         o = ref.parse_option(optv)
     except ref.RefError as e:
         return "must_fail", "malformed:" + str(e)
-    if o.piv != orig.piv:
-        return "must_fail", "piv-changed"
+    if is_request:
+        # the request's Partial IV bytes are the request_piv of the AAD (section 5.4): exact bytes matter
+        if o.piv != orig.piv:
+            return "must_fail", "piv-changed"
+    else:
+        # a response's own Partial IV only enters the nonce, left-padded to 5 bytes (section 5.2); the
+        # OSCORE option itself is not authenticated, so leading zeros are neutral for every RFC 8613 receiver
+        if (o.piv is None) != (orig.piv is None) or (o.piv is not None and int.from_bytes(o.piv, "big") != int.from_bytes(orig.piv, "big")):
+            return "must_fail", "piv-changed"
     if o.kid is None:
         if is_request and orig.kid:
             return "must_fail", "request-kid-removed"
@@ -578,7 +586,7 @@ class Engine:
         except ref.RefError as e:
             rep.violation("ref/option-undecodable", "protect() produced an OSCORE option RFC 8613 section 6.1 cannot decode: %s" % e, dict(where, option=optv.hex()), case)
             return None
-        p, cid, sid = sc["params"], sc["cid_of"](sender, receiver), None
+        p = sc["params"]
         req_kid, req_piv = (sender.sender_id, o.piv) if is_request else (protect_rid.kid, protect_rid.partial_iv)
         if o.piv is not None:
             nonce_id, nonce_piv = sender.sender_id, o.piv
@@ -626,7 +634,10 @@ class Engine:
         rep.case((base_sig, "genuine", "ok" if got == expected else "differs"), nontrivial=True)
         if got is not None and got != expected:
             diff = "code" if got[0] != expected[0] else ("payload" if got[2] != expected[2] else "options")
-            rep.violation("roundtrip/%s-%s-differ" % (label, diff), "unprotect(protect(m)) differs from m in %s" % diff, dict(where, want=repr(expected)[:600], got=repr(got)[:600]), case)
+            key = "roundtrip/%s-%s-differ" % (label, diff)
+            if diff == "options" and spec["observe"] == 1 and is_request and got[1] == [x for x in expected[1] if x[0] != 6]:
+                key = "roundtrip/request-observe-1-dropped-by-unprotect"
+            rep.violation(key, "unprotect(protect(m)) differs from m in %s" % diff, dict(where, want=repr(expected)[:600], got=repr(got)[:600]), case)
             got = None
         return {
             "label": label, "is_request": is_request, "wire": wire, "base": base, "opt": o, "optv": optv, "ct": ct, "receiver": receiver,
@@ -695,3 +706,270 @@ class Engine:
         # bit in each must of course still fail
         if optv:
             self.settle(t, "tamper_field", "flip-both", "option+ciphertext", flip(optv, r.randrange(len(optv) * 8)), flip(ct, r.randrange(len(ct) * 8)), case)
+
+    # -- verification under another context's keys -------------------------------------------------
+    def foreign_variants(self, r, p, S, R, maxid):
+        ref = self.ref
+        yield "master-secret-bit", p._replace(secret=bytes([p.secret[0] ^ 1]) + p.secret[1:]), S, R
+        yield "master-secret-extended", p._replace(secret=p.secret + b"\0"), S, R
+        yield "master-salt-changed", p._replace(salt=(p.salt or b"") + b"x"), S, R
+        if p.salt:
+            yield "master-salt-absent", p._replace(salt=None), S, R
+        if p.id_context is None:
+            yield "id-context-empty-instead-of-none", p._replace(id_context=b""), S, R
+            yield "id-context-added", p._replace(id_context=rbytes(r, 4)), S, R
+        else:
+            yield "id-context-none", p._replace(id_context=None), S, R
+            if p.id_context:
+                yield "id-context-bit", p._replace(id_context=flip(p.id_context, r.randrange(len(p.id_context) * 8))), S, R
+                yield "id-context-truncated", p._replace(id_context=p.id_context[:-1]), S, R
+            if len(p.id_context) < 255:
+                yield "id-context-extended", p._replace(id_context=p.id_context + b"\0"), S, R
+        if R:
+            yield "recipient-id-bit", p, S, flip(R, r.randrange(len(R) * 8))
+            yield "recipient-id-truncated", p, S, R[:-1]
+        if len(R) < maxid:
+            yield "recipient-id-extended", p, S, R + b"\0"
+            yield "recipient-id-zero-prepended", p, S, b"\0" + R
+        yield "roles-swapped", p, R, S
+        nlen = ref.ALGS[p.alg][3]
+        same = [a for a in self.algs if a != p.alg and ref.ALGS[a][3] == nlen]
+        if same:
+            yield "algorithm-other-same-nonce-length", p._replace(alg=r.choice(same)), S, R
+        other = [a for a in self.algs if ref.ALGS[a][3] != nlen and max(len(S), len(R)) <= ref.ALGS[a][3] - 6]
+        if other:
+            yield "algorithm-other-nonce-length", p._replace(alg=r.choice(other)), S, R
+        yield "hash-function-other", p._replace(hashname="sha384" if p.hashname == "sha256" else "sha256"), S, R
+
+    def foreign(self, sc, t, r, case):
+        rep = self.rep
+        recv = t["receiver"]
+        maxid = recv.alg_aead.iv_bytes - 6
+        for name, p2, S, R in self.foreign_variants(r, sc["params"], recv.sender_id, recv.recipient_id, maxid):
+            try:
+                other = self.ctx(p2, S, R)
+            except Exception as e:
+                rep.count("harness_foreign_ctx_failed/%s/%s" % (name, type(e).__name__))
+                continue
+            outcome, detail = self.attempt(other, t["base"], t["optv"], t["ct"], t["receiver_rid"])
+            if outcome == "skipped":
+                continue
+            rep.monitor("foreign_context")
+            rep.case((t["sig"], "foreign", name, outcome), nontrivial=True)
+            w = dict(t["where"], foreign_variant=name, option=t["optv"].hex(), ciphertext=t["ct"][:96].hex(),
+                     foreign=dict(alg=p2.alg, hash=p2.hashname, master_secret=p2.secret.hex(), master_salt=None if p2.salt is None else p2.salt.hex(), id_context=None if p2.id_context is None else p2.id_context.hex(), sender_id=S.hex(), recipient_id=R.hex()))
+            if outcome == "escape":
+                rep.violation("foreign/escape-%s/%s" % (type(detail).__name__, escape_mechanism(self.ref, detail, t["optv"])), "unprotect() under another context's keys let %s escape" % type(detail).__name__, dict(w, tb=rep.exception_witness(detail)), case)
+            elif outcome == "accepted":
+                rep.violation("foreign/accepted/" + name, "a %s verified under a context with other keys (%s) and yielded a message" % (t["label"], name), dict(w, got=repr(detail)[:400]), case)
+            elif outcome == "not-protected":
+                rep.violation("foreign/not-a-protected-message", "NotAProtectedMessage although an OSCORE option is present", w, case)
+            else:
+                rep.count("rejected/" + type(detail).__name__)
+
+    # -- (d) binding of responses to their request --------------------------------------------------
+    def binding(self, sc, r, case):
+        rep, rc = self.rep, self.rc
+        p, sid, cid_a = sc["params"], sc["sid"], sc["cid"]
+        maxid = self.ref.ALGS[p.alg][3] - 6
+        for _ in range(50):
+            k = r.random()
+            if k < 0.25 and cid_a:  # IDs sharing a prefix / differing only in the last byte or in length
+                cid_b = cid_a[:-1] + bytes([cid_a[-1] ^ (1 << r.randrange(8))])
+            elif k < 0.4 and len(cid_a) < maxid:
+                cid_b = cid_a + bytes([r.choice([0, 1, 255])])
+            elif k < 0.5 and len(cid_a) < maxid:
+                cid_b = b"\0" + cid_a
+            elif k < 0.6 and cid_a:
+                cid_b = cid_a[:-1]
+            else:
+                cid_b = rbytes(r, r.randrange(0, maxid + 1))
+            if cid_b not in (cid_a, sid):
+                break
+        else:
+            rep.count("harness_no_second_client_id")
+            return
+        s1 = sc["seq_c"]
+        s2 = r.choice([s for s in SEQS if s != s1])
+        pool = []
+        for cid in (cid_a, cid_b):
+            client = self.ctx(p, cid, sid)
+            server = self.ctx(p, sid, cid, seq=r.choice(SEQS))
+            for seq in (s1, s2):
+                client.sender_sequence_number = seq
+                spec = {"code": 1, "opts": [(11, marker(r, "B"), STRING)], "outer": [], "observe": None, "payload": b"", "markers": []}
+                try:
+                    outer, rid_c = client.protect(self.build(spec), kid_context=sc["send_kc"])
+                    wire = self.to_wire(outer, 0, sc["mid"], sc["token"])
+                    server.recipient_replay_window.initialize_empty()
+                    _inner, rid_s = server.unprotect(self.Message.decode(wire))
+                except Exception as e:
+                    rep.count("binding_pool_setup_failed/" + type(e).__name__)
+                    return
+                pool.append({"client": client, "server": server, "rid_c": rid_c, "rid_s": rid_s, "kid": cid, "piv": rid_c.partial_iv})
+        for e in pool:
+            for mode in ("reuse", "ownpiv"):
+                body = marker(r, "RESP").encode()
+                spec = {"code": 69, "opts": [(12, 0, UINT)], "outer": [], "observe": None, "payload": body, "markers": []}
+                try:
+                    e["server"].sender_sequence_number = r.choice(SEQS)
+                    outer, _ = e["server"].protect(self.build(spec), e["rid_s"])  # first call re-uses the request nonce, the second draws an own Partial IV
+                    wire = self.to_wire(outer, 2, sc["mid"], sc["token"])
+                    base = rc.parse(wire)
+                    has_piv = self.ref.parse_option(rc.opt1(base, 9)).piv is not None
+                except Exception as ex:
+                    rep.count("binding_response_setup_failed/" + type(ex).__name__)
+                    continue
+                if has_piv != (mode == "ownpiv"):
+                    rep.count("binding_nonce_mode_unexpected/" + mode)
+                want = self.expected_inner(spec)
+                for f in pool:
+                    outcome, detail = self.attempt(f["client"], base, rc.opt1(base, 9), base.payload, f["rid_c"])
+                    if outcome == "skipped":
+                        continue
+                    diff = "same-request" if f is e else "-and-".join(x for x, c in (("other-kid", f["kid"] != e["kid"]), ("other-piv", f["piv"] != e["piv"])) if c)
+                    rep.case(("binding", p.alg, len(e["kid"]), len(f["kid"]), len(e["piv"]), len(f["piv"]), mode, diff, outcome), nontrivial=True)
+                    w = dict(self.describe(sc, "response (%s nonce)" % mode), option=rc.opt1(base, 9).hex(), ciphertext=base.payload.hex(),
+                             answered_request=dict(kid=e["kid"].hex(), piv=e["piv"].hex()), verified_with_request=dict(kid=f["kid"].hex(), piv=f["piv"].hex()))
+                    if f is e:
+                        rep.monitor("binding_control")
+                        if outcome != "accepted" or detail != want:
+                            rep.violation("binding/own-request-rejected/" + mode, "a response does not verify with the identifiers of the request it answers", dict(w, outcome=outcome, detail=repr(detail)[:300]), case)
+                        continue
+                    rep.monitor("binding")
+                    if outcome == "accepted":
+                        rep.violation("binding/accepted-with-foreign-request/%s-nonce/%s" % (mode, diff), "a response protected for one request verified with the identifiers of another request (%s)" % diff, dict(w, got=repr(detail)[:300]), case)
+                    elif outcome != "rejected":
+                        rep.violation("binding/escape-%s/%s" % (type(detail).__name__, escape_mechanism(self.ref, detail, rc.opt1(base, 9))), "cross-paired verification raised %s" % type(detail).__name__, dict(w, tb=rep.exception_witness(detail) if isinstance(detail, BaseException) else None), case)
+
+    # -- one scenario ---------------------------------------------------------------------------------
+    def scenario(self, seed, gi, case, light=False):
+        rep, ref = self.rep, self.ref
+        r = random.Random("c11/%d/%d" % (seed, gi))
+        alg = self.algs[gi % len(self.algs)]
+        maxid = ref.ALGS[alg][3] - 6
+        cid, sid = gen_ids(r, maxid, gi)
+        idctx = gen_idctx(r, gi)
+        hashname = "sha256" if r.random() < 0.85 else r.choice(["sha384", "sha512"])
+        secret = rbytes(r, r.choice([16, 16, 16, 1, 32, 64]))
+        salt = r.choice([None, b"", rbytes(r, 8), rbytes(r, 8), rbytes(r, 32)])
+        p = ref.Params(alg, hashname, secret, salt, idctx)
+        seq_c = SEQS[(gi // 12) % len(SEQS)] if r.random() < 0.7 else r.choice(SEQS + [r.randrange(2**40 - 1)])
+        seq_s = SEQS[(gi // 5) % len(SEQS)] if r.random() < 0.7 else r.choice(SEQS)
+        sc = {
+            "params": p, "cid": cid, "sid": sid, "seq_c": seq_c, "mid": r.randrange(65536), "token": rbytes(r, r.randrange(0, 9)),
+            "idctx_class": "none" if idctx is None else len(idctx), "send_kc": True if (idctx is None or r.random() < 0.7) else False,
+        }
+        rep.seen("alg_x_idlens", "%s/%d/%d" % (alg, len(cid), len(sid)))
+        rep.seen("alg_x_seq_x_idctx", "%s/%d/%s" % (alg, seq_c if seq_c in SEQS else -1, sc["idctx_class"]))
+        client = self.ctx(p, cid, sid, seq_c)
+        server = self.ctx(p, sid, cid, seq_s)
+        req_spec = gen_message(r, True, gi)
+        t1 = self.protect_and_check(sc, "request", client, req_spec, None, server, None, case, kid_context=sc["send_kc"], mtype=r.choice([0, 1]))
+        if gi < 3 * 16:
+            rep.sample({"alg": alg, "client_id": cid.hex(), "server_id": sid.hex(), "id_context": None if idctx is None else idctx[:16].hex(), "seq": seq_c,
+                        "request": repr({k: req_spec[k] for k in ("code", "opts", "outer", "observe")})[:300], "payload_len": len(req_spec["payload"]), "wire": None if t1 is None else t1["wire"][:80].hex()})
+        if t1 is None or t1["genuine"] is None or t1["rid_in"] is None:
+            return
+        targets = [t1]
+        rid_s = t1["rid_in"]
+        if rid_s.can_reuse_nonce is not True:
+            rep.count("request_id_not_reusable")
+        for label in ("response-reuse", "response-ownpiv"):
+            spec = gen_message(r, False, gi + len(targets))
+            t = self.protect_and_check(sc, label, server, spec, rid_s, client, t1["rid_out"], case, mtype=r.choice([2, 0, 1]))
+            if t is None:
+                continue
+            if (t["opt"].piv is not None) != (label == "response-ownpiv"):
+                rep.count("nonce_mode_unexpected/" + label)
+            if t["genuine"] is not None:
+                targets.append(t)
+        # a second request of the same client, for splicing ciphertexts between messages
+        try:
+            o2, _ = client.protect(self.build(gen_message(r, True, gi + 7)), kid_context=sc["send_kc"])
+            other_req_ct = bytes(o2.payload)
+        except Exception:
+            other_req_ct = None
+        for i, t in enumerate(targets):
+            if t["is_request"]:
+                other = other_req_ct
+            else:
+                other = next((x["ct"] for x in targets[1:] if x is not t), None)
+            if not light or i == 0:
+                self.tamper(t, r, case, other)
+            self.foreign(sc, t, r, case)
+        self.binding(sc, r, case)
+
+    # -- fixed, deterministic witnesses on the RFC 8613 Appendix C messages ------------------------------
+    def fixed(self, case):
+        rep, rc, ref = self.rep, self.rc, self.ref
+        h = bytes.fromhex
+        secret = h("0102030405060708090a0b0c0d0e0f10")
+        sets = [
+            # (name, params, client id, server id, genuine request datagram from the RFC, manipulations)
+            ("rfc8613-C.4", ref.Params("AES-CCM-16-64-128", "sha256", secret, h("9e7ca92223786340"), None), b"", b"\x01",
+             h("44025d1f00003974396c6f63616c686f7374620914ff612f1092f1776f1c1668b3825e"),
+             [("h-flag-bit-set", h("1914")), ("group-flag-bit-set", h("2914")), ("piv-len-6", h("0e000000000014")), ("piv-len-7", h("0f00000000000014")),
+              ("k-flag-cleared-on-empty-kid", h("0114")), ("h-flag-only-no-piv", h("10"))]),
+            ("rfc8613-C.5", ref.Params("AES-CCM-16-64-128", "sha256", secret, None, None), b"\x00", b"\x01",
+             h("440271c30000b932396c6f63616c686f737463091400ff4ed339a5a379b0b8bc731fffb0"),
+             [("kid-removed", h("0114")), ("kid-flag-cleared-bytes-left", h("011400")), ("h-flag-bit-set", h("191400"))]),
+        ]
+        for name, p, cid, sid, wire, manips in sets:
+            sc = {"params": p, "cid": cid, "sid": sid, "seq_c": 20, "mid": 1, "token": b"", "idctx_class": "none", "send_kc": True}
+            server = self.ctx(p, sid, cid)
+            base = rc.parse(wire)
+            optv, ct = rc.opt1(base, 9), base.payload
+            outcome, genuine = self.attempt(server, base, optv, ct, None)
+            rep.monitor("fixed_witnesses")
+            if outcome != "accepted" or genuine != (1, [(11, b"tv1")], b""):
+                rep.inconc("the genuine %s request does not unprotect to GET /tv1 (%s %r): fixed witnesses not evaluated" % (name, outcome, genuine))
+                continue
+            t = {"label": "request", "is_request": True, "wire": wire, "base": base, "opt": ref.parse_option(optv), "optv": optv, "ct": ct, "receiver": server, "receiver_rid": None,
+                 "genuine": genuine, "sig": ("fixed", name), "where": self.describe(sc, "request (%s, genuine datagram %s)" % (name, wire.hex())), "request_piv": None}
+            for mname, ov in manips:
+                self.settle(t, "fixed_witnesses", mname, "option", ov, ct, case)
+        # Observe=1 (deregistration) request through protect/unprotect
+        p = sets[0][1]
+        sc = {"params": p, "cid": b"", "sid": b"\x01", "seq_c": 20, "mid": 1, "token": b"", "idctx_class": "none", "send_kc": True}
+        for obs, code in ((0, 1), (1, 1), (0, 5), (1, 5)):
+            client, server = self.ctx(p, b"", b"\x01", 20), self.ctx(p, b"\x01", b"")
+            spec = {"code": code, "opts": [(11, "tv1", STRING)], "outer": [], "observe": obs, "payload": b"", "markers": []}
+            self.protect_and_check(sc, "request", client, spec, None, server, None, case)
+            rep.monitor("fixed_witnesses")
+
+
+def run_shard(shard, rep, only=None):
+    import logging
+    from harness import oscore_env
+
+    ok, info = oscore_env.vectors_ok()
+    if not ok:
+        rep.inconc("RFC 8613 Appendix C vectors of tests/test_oscore.py do not pass through the CBOR stand-in: " + info)
+        return
+    from harness import refcodec, oscore_c11ref
+
+    assert refcodec.selftest()
+    try:
+        oscore_c11ref.selftest()
+    except Exception as e:
+        rep.inconc("reference self-test on RFC 8613 Appendix C vectors failed: %r" % (e,))
+        return
+    logging.getLogger("aiocoap").setLevel(logging.CRITICAL)
+    eng = Engine(rep)
+    eng.probe_algorithms()
+    if not eng.algs:
+        rep.inconc("no AEAD algorithm of oscore.algorithms is usable with this `cryptography`")
+        return
+    if shard["index"] == 0:
+        case = ["fixed"]
+        if only is None or only == case:
+            eng.fixed(case)
+        else:
+            rep.monitor("fixed_witnesses", 0)
+    for i in range(shard["n"]):
+        gi = shard["index"] + shard["of"] * i
+        case = ["scn", gi]
+        if only is not None and only != case:
+            continue
+        eng.scenario(shard["seed"] - shard["index"], gi, case)
